@@ -72,6 +72,8 @@ type Explorer struct {
 	busy     int
 	Stats    Stats
 	stop     bool
+	Deadline time.Time // zero = none; when passed no new path is started
+	Dropped  int       // prefixes left unexplored because of the deadline
 	perCase  map[string]int
 	entered  map[*ssa.Function]int
 	lenient  map[string]int
@@ -126,6 +128,11 @@ func (e *Explorer) worker(id int) {
 		e.mu.Lock()
 		for len(e.queue) == 0 && e.busy > 0 && !e.stop {
 			e.cond.Wait()
+		}
+		if !e.Deadline.IsZero() && len(e.queue) > 0 && time.Now().After(e.Deadline) {
+			e.Dropped += len(e.queue)
+			e.queue = nil
+			e.stop = true
 		}
 		if len(e.queue) == 0 || e.stop {
 			e.mu.Unlock()
